@@ -665,6 +665,28 @@ def r185(facts, res):
     R = 'R18.5'
     b = facts.one(R, 'CTLexerBuilder::build', crate='lrlex', name='build', impl_re='^' + LB)
     creates = [(bb, t) for bb, t in b.calls_named('create') if 'fs::File' in (cpath(t) or '') and is_path_of(b, t['args'][0], 'output_path')]
+    if not creates:
+        # other ways of writing the output file: fs::write (truncates), or OpenOptions .. open(output)
+        fw = [(bb, t) for bb, t in b.calls_named('write') if (cpath(t) or '').endswith('fs::write') and is_path_of(b, t['args'][0], 'output_path')]
+        opens = [(bb, t) for bb, t in b.calls_named('open') if 'OpenOptions' in (cpath(t) or '') and len(t['args']) > 1 and is_path_of(b, t['args'][1], 'output_path')]
+        if fw:
+            res.ok(R, 'rewrite-rule', loc_of(b, fw[0][0]), 'the output is written with fs::write (replaces the whole file); the rewrite decision is not analysed in this form')
+            res.note('R18.5: output written with fs::write; rewrite decision not analysed')
+            return
+        if opens:
+            def const_bool_arg(t):
+                return (op_const(t['args'][1]) or {}).get('int') if len(t['args']) > 1 else None
+            writable = any(const_bool_arg(t) == 1 for bb, t in b.calls_named('write') if 'OpenOptions' in (cpath(t) or '')) or \
+                any(const_bool_arg(t) == 1 for bb, t in b.calls_named('append') if 'OpenOptions' in (cpath(t) or ''))
+            trunc = any(const_bool_arg(t) == 1 for bb, t in b.calls_named('truncate') if 'OpenOptions' in (cpath(t) or '')) or \
+                any((op_const(t['args'][1]) or {}).get('int') == 0 for bb, t in b.calls_named('set_len') if len(t['args']) > 1)
+            if writable and not trunc:
+                res.bad(R, 'rewrite-rule', loc_of(b, opens[0][0]), 'the output file is opened for writing without truncation and never cut to length 0: a new text '
+                        'shorter than the old one leaves the tail of the old file behind it, which no clean build would produce')
+            else:
+                res.ok(R, 'rewrite-rule', loc_of(b, opens[0][0]), 'the output is opened through OpenOptions and truncated before it is rewritten; the rewrite decision is not analysed in this form')
+                res.note('R18.5: output opened through OpenOptions; rewrite decision not analysed')
+            return
     if len(creates) != 1:
         res.lost(R, 'expected one File::create(output) in CTLexerBuilder::build, found %d' % len(creates))
         return
